@@ -8,6 +8,53 @@ VERIF = os.path.dirname(os.path.dirname(os.path.abspath(__file__)))
 sys.path.insert(0, VERIF)
 
 ALL = ['C%02d' % i for i in range(1, 21)]
+
+COMMON = (' Held means: no refutation on the executions observed in this run (counts and samples in the evidence file); '
+          'it is exploration by runtime monitoring, not a proof over all inputs.')
+LEVEL_TEXTS = {
+    'C01': 'The real Decoder is run on thousands of messages whose bytes and expected (label, exact rational value, link) lists come from an '
+           'independent FM-94 reference model (no pybufrkit code), plus every sample file read by both; every field is compared. Exploration is the '
+           'right level because the input space (templates x values x layouts) is unbounded and the oracle is independent.',
+    'C02': 'The real Encoder\'s output is compared byte for byte with a message constructed independently from the same values (uncompressed) and '
+           're-read by an independent column reader (compressed). Errors shared by encoder and decoder - invisible to round-trip tests - are visible.',
+    'C03': 'Encode->decode of the real code with exact rational bounds per field (half a unit of the last digit, range refusal, all-ones exception) for '
+           'every numeric Table B element under operator contexts, plus byte fixpoints E(D(b)) = b on encoder output and foreign messages.',
+    'C04': 'An independent frame parser/producer decides every length, padding bit and signature in both directions over the full product residue(mod 16) x '
+           'edition x section-2 x surplus octets x honour/recompute.',
+    'C05': 'All columns of <= 4 subsets over widths <= 3 (quick) / <= 4 (thorough) are enumerated exhaustively through the real encoder+decoder and an independent '
+           'column reader/writer (every legal difference width), plus random wide and character columns and whole-message transparency.',
+    'C06': 'Self-composition: the same subsets decoded jointly (all permutations for small n), alone, and re-ordered must agree; the joint bytes come from the '
+           'reference model so that a leak shared by encoder and decoder cannot hide.',
+    'C07': 'Reference link map computed from the FM-94 bitmap rule vs bitmap_links and an independent reader of the nested view, over every 0/1 pattern of bitmap '
+           'lengths 1..7/8 for each operator, chains, reuse/cancel operators, associated fields; encoder side checked against the same reference.',
+    'C08': 'Three-way differential execution (interpreted / compiled / compiled-saved-reloaded) of decoder and encoder over every distinct Table D sequence '
+           '(versions >= 19), enumerated delayed-factor and bitmap assignments, cache-size histories and same-descriptors-other-version collisions.',
+    'C09': 'Every rendering of real decodes is converted back and compared with the flat form, an independent walk of the nested view must reproduce the flat '
+           'order exactly once per value, the wired node tree must reference each flat index once; CLI paths driven in-process.',
+    'C10': 'subset -> encode -> decode of the real code against the selection computed independently, for every index subset of n <= 4 (each also permuted with a '
+           'repeat) and sampled larger collections, with a source-message digest contract.',
+    'C11': 'Streams are assembled from known messages and separators, so the expected yield log is known by construction; an exactly-once/order checker runs over '
+           'the recorded yields in full, info-only and filtered modes, including hostile payloads containing signatures and whole inner messages.',
+    'C12': 'Fault enumeration: every truncation point of each pool message, every fault of each kind at every position (stop signature, undefined descriptor, '
+           'section length +-1/2), every subset of damaged messages in streams of n <= 4; yield logs and exception classes are judged, detectability of damage '
+           'is decided by an independent reader.',
+    'C13': 'History vs model: after arbitrary operation histories (compiled caches 0/1/2/n, failing decodes, lenient decodes, encodes, re-wiring, table-group cache '
+           'limits 1/2/3 and the real 50 with > 100 keys) every result must equal the digest computed for that message alone in a brand-new interpreter.',
+    'C14': 'Exhaustive for the finite part: every Table D entry of every bundled version is expanded by the real loader and by an independent expander over the '
+           'table files, every Table B attribute compared; random nested descriptor lists, undefined descriptors at every kind of position, all version selections.',
+    'C15': 'Exhaustive over all strings up to length 5 (quick) / 6 (thorough) of the 12-symbol alphabet against a three-valued reference recogniser, plus grammar-'
+           'derived long expressions and all their single-character mutations; parser reuse after rejected input is part of the workload.',
+    'C16': 'An independent evaluator of / and . steps with slices over the nested JSON view is the oracle for DataQuerent on every structure-derived path of '
+           'generated messages and sample files; bare-ID, subset-selector and compression/compilation-invariance clauses checked separately.',
+    'C17': 'Expected values come from an independent parse with hard-coded edition layouts; every parameter name x implicit/explicit section index x editions x '
+           'section 2; info-only decoding judged by invariance under corruption of the data section and by declared-length streams.',
+    'C18': 'A reference scanner written from the documentation decides every script assembled from 12 fragment kinds in all orders up to length 4/5; run-time '
+           'bindings and nest-level identities are checked on real messages including ones whose first subset lacks the queried element.',
+    'C19': 'An int-based bit-string model decides every primitive over widths 1..64 x edge values x bit offsets 0..7 (enumerated) and random field sequences; '
+           'online tape invariants (position advances by exactly the width, set_uint keeps the length) are verdict-bearing here.',
+    'C20': 'History vs stateful model: definition messages and following data messages are produced by the reference model with its tables extended by the '
+           'carried entries; each stream is scanned in a fresh interpreter and every data message compared field by field.',
+}
 NOT_YET = 'check not built yet in this round (see DESIGN.md section 3 for the planned monitor)'
 
 
@@ -31,7 +78,7 @@ def main():
             replay_cmd_template='./check %s --replay {path}' % pid,
             engine='mon',
             level_claimed=dict(category=getattr(mod, 'LEVEL', 'exploration'),
-                               text=getattr(mod, 'LEVEL_TEXT', mod.__doc__.strip().split('\n\n')[0]),
+                               text=mod.__doc__.strip().split('\n\n')[0].split('\n')[0] + ' ' + LEVEL_TEXTS.get(pid, '') + COMMON,
                                design_ref='DESIGN.md section 3, ' + pid),
             level_note='; '.join(getattr(mod, 'ASSUMPTIONS', [])),
             technique=getattr(mod, 'TECHNIQUE', 'runtime monitoring'),
